@@ -8,7 +8,7 @@ kind it never emits, the count is unchanged; the step-level statements combine t
 namespace H2.Server
 
 inductive Kind where
-  | ack | settings | wu | ping | headers | data | rst | goAway | dispatch | panicLogged | returned
+  | ack | settings | wu | ping | headers | cont | data | rst | goAway | dispatch | panicLogged | returned
 deriving DecidableEq, Repr
 
 def Out.kind : Out → Kind
@@ -17,6 +17,7 @@ def Out.kind : Out → Kind
   | .wu .. => .wu
   | .ping .. => .ping
   | .headers .. => .headers
+  | .cont .. => .cont
   | .data .. => .data
   | .rst .. => .rst
   | .goAway .. => .goAway
@@ -35,6 +36,7 @@ def cnt (k : Kind) (l : List Out) : Nat := (l.filter fun o => o.kind == k).lengt
 
 @[simp] theorem updStrm_out (r : R) (uid : Nat) (f : Strm → Strm) : (r.updStrm uid f).out = r.out := rfl
 @[simp] theorem emit_out (r : R) (o : Out) : (r.emit o).out = r.out ++ [o] := rfl
+@[simp] theorem emits_out (r : R) (os : List Out) : (r.emits os).out = r.out ++ os := rfl
 @[simp] theorem stopLoop_out (r : R) : (stopLoop r).out = r.out := rfl
 @[simp] theorem rlStop_out (r : R) : (rlStop r).out = r.out := rfl
 @[simp] theorem closeBody_out (r : R) (uid : Nat) : (closeBody r uid).out = r.out := rfl
@@ -116,12 +118,118 @@ theorem flushStreams_cnt (k : Kind) (hk : k ≠ .rst ∧ k ≠ .data) (r : R) :
   exact foldl_inv (fun x : R => cnt k x.out = cnt k r.out) closeDone
     (fun b a hb => by rw [closeDone_out, hb]) _ _ h1
 
-theorem responseHeaders_cnt (k : Kind) (hk : k ≠ .headers) (r : R) (st : Strm) (resp : Resp) (hb : Bool) :
+theorem emits_eq_foldl (r : R) (os : List Out) : r.emits os = os.foldl R.emit r := by
+  induction os generalizing r with
+  | nil => simp [R.emits]
+  | cons o os ih => rw [List.foldl_cons, ← ih]; simp [R.emits, R.emit, List.append_assoc]
+
+/-- a property kept by every single `emit` of an output satisfying `Q` is kept by `emits` of such outputs -/
+theorem emits_inv (P : R → Prop) (Q : Out → Prop) (hstep : ∀ r o, P r → Q o → P (r.emit o)) (r : R) (os : List Out)
+    (hq : ∀ o ∈ os, Q o) (h : P r) : P (r.emits os) := by
+  rw [emits_eq_foldl]
+  induction os generalizing r with
+  | nil => exact h
+  | cons o os ih =>
+    exact ih (r.emit o) (fun x hx => hq x (List.mem_cons_of_mem _ hx)) (hstep r o h (hq o List.mem_cons_self))
+
+/-- a frame of a header block: HEADERS or CONTINUATION -/
+def Out.isBlock : Out → Bool
+  | .headers .. => true
+  | .cont .. => true
+  | _ => false
+
+theorem contOuts_isBlock (sid : Nat) (fs : List (Bytes × Bytes)) (err : Bool) (frags : List Bytes) :
+    ∀ o ∈ contOuts sid fs err frags, o.isBlock = true := by
+  induction frags with
+  | nil => intro o h; cases h
+  | cons f rest ih =>
+    intro o h
+    simp only [contOuts, List.mem_cons] at h
+    rcases h with rfl | h
+    · rfl
+    · exact ih o h
+
+theorem blockOuts_isBlock (sid : Nat) (es : Bool) (fs : List (Bytes × Bytes)) (err : Bool) (frags : List Bytes) :
+    ∀ o ∈ blockOuts sid es fs err frags, o.isBlock = true := by
+  cases frags with
+  | nil => intro o h; cases h
+  | cons f rest =>
+    intro o h
+    simp only [blockOuts, List.mem_cons] at h
+    rcases h with rfl | h
+    · rfl
+    · exact contOuts_isBlock sid fs err rest o h
+
+theorem cutRest_nil (max fuel : Nat) : cutRest max fuel [] = [] := by
+  cases fuel <;> simp [cutRest]
+
+/-- a block that fits goes out whole, as one HEADERS frame with END_HEADERS -/
+theorem cutBlock_small (max : Nat) (b : Bytes) (h : b.length ≤ max) : cutBlock max b = [b] := by
+  simp [cutBlock, List.take_of_length_le h, List.drop_of_length_le h, cutRest_nil]
+
+theorem blockOuts_small (sid : Nat) (es : Bool) (fs : List (Bytes × Bytes)) (err : Bool) (max : Nat) (b : Bytes)
+    (h : b.length ≤ max) : blockOuts sid es fs err (cutBlock max b) = [.headers sid es true b.length fs err] := by
+  simp [cutBlock_small max b h, blockOuts, contOuts]
+
+/-- the frames after the first of a header block are CONTINUATION frames … -/
+theorem contOuts_kind (sid : Nat) (fs : List (Bytes × Bytes)) (err : Bool) (frags : List Bytes) :
+    ∀ o ∈ contOuts sid fs err frags, o.kind = .cont := by
+  induction frags with
+  | nil => intro o h; cases h
+  | cons f rest ih =>
+    intro o h
+    simp only [contOuts, List.mem_cons] at h
+    rcases h with rfl | h
+    · rfl
+    · exact ih o h
+
+theorem cnt_zero_of_kind (k k' : Kind) (hk : k ≠ k') (l : List Out) (h : ∀ o ∈ l, o.kind = k') : cnt k l = 0 := by
+  simp only [cnt, List.length_eq_zero_iff, List.filter_eq_nil_iff]
+  intro o ho
+  rw [h o ho]
+  simpa using fun e => hk e.symm
+
+theorem cnt_contOuts (k : Kind) (hk : k ≠ .cont) (sid : Nat) (fs : List (Bytes × Bytes)) (err : Bool) (frags : List Bytes) :
+    cnt k (contOuts sid fs err frags) = 0 :=
+  cnt_zero_of_kind k .cont hk _ (contOuts_kind sid fs err frags)
+
+/-- … and the first is the one HEADERS frame -/
+theorem blockOuts_cut (sid : Nat) (es : Bool) (fs : List (Bytes × Bytes)) (err : Bool) (max : Nat) (b : Bytes) :
+    ∃ eh len fs' e', blockOuts sid es fs err (cutBlock max b) =
+      .headers sid es eh len fs' e' :: contOuts sid fs err (cutRest max b.length (b.drop max)) :=
+  ⟨_, _, _, _, rfl⟩
+
+theorem cnt_blockOuts (k : Kind) (sid : Nat) (es : Bool) (fs : List (Bytes × Bytes)) (err : Bool) (max : Nat) (b : Bytes) :
+    cnt k (blockOuts sid es fs err (cutBlock max b)) =
+      (if k = .headers then 1 else 0) + (if k = .cont then (cutRest max b.length (b.drop max)).length else 0) := by
+  obtain ⟨eh, len, fs', e', h⟩ := blockOuts_cut sid es fs err max b
+  rw [h, show (Out.headers sid es eh len fs' e' :: contOuts sid fs err (cutRest max b.length (b.drop max))) =
+    [Out.headers sid es eh len fs' e'] ++ contOuts sid fs err (cutRest max b.length (b.drop max)) from rfl, cnt_append, cnt_single]
+  by_cases hc : k = .cont
+  · subst hc
+    have : (contOuts sid fs err (cutRest max b.length (b.drop max))).length = (cutRest max b.length (b.drop max)).length := by
+      generalize cutRest max b.length (b.drop max) = l
+      induction l with
+      | nil => rfl
+      | cons f rest ih => simp [contOuts, ih]
+    have h2 : cnt .cont (contOuts sid fs err (cutRest max b.length (b.drop max))) =
+        (contOuts sid fs err (cutRest max b.length (b.drop max))).length := by
+      simp only [cnt]
+      rw [List.filter_eq_self.mpr]
+      intro o ho
+      simpa using contOuts_kind sid fs err _ o ho
+    simp [Out.kind, h2, this]
+  · rw [cnt_contOuts k hc]
+    by_cases hh : k = .headers
+    · subst hh; simp [Out.kind]
+    · simp [Out.kind, hh, hc, Ne.symm hh]
+
+theorem responseHeaders_cnt (k : Kind) (hk : k ≠ .headers ∧ k ≠ .cont) (r : R) (st : Strm) (resp : Resp) (hb : Bool) :
     cnt k (responseHeaders r st resp hb).out = cnt k r.out := by
   simp only [responseHeaders]
-  split <;> simp [Out.kind, hk.symm]
+  split <;> simp [cnt_blockOuts, hk.1, hk.2]
 
-theorem finishRequest_cnt (k : Kind) (hk : k ≠ .headers ∧ k ≠ .rst ∧ k ≠ .data) (r : R) (uid : Nat) (resp : Resp) :
+theorem finishRequest_cnt (k : Kind) (hk : (k ≠ .headers ∧ k ≠ .cont) ∧ k ≠ .rst ∧ k ≠ .data) (r : R) (uid : Nat) (resp : Resp) :
     cnt k (finishRequest r uid resp).1.out = cnt k r.out := by
   simp only [finishRequest]
   repeat' split
@@ -227,7 +335,7 @@ theorem slFrame_cnt (k : Kind) (hk : k ∉ slKinds) (r : R) (fr : Frame.Frame) :
   repeat' split
   all_goals simp [slStreamFrame_cnt k hk, flushStreams_cnt k ⟨h1, h4⟩, Out.kind, Ne.symm h2]
 
-theorem slHandlerDone_cnt (k : Kind) (hk : k ≠ .panicLogged ∧ k ≠ .headers ∧ k ≠ .rst ∧ k ≠ .data)
+theorem slHandlerDone_cnt (k : Kind) (hk : k ≠ .panicLogged ∧ (k ≠ .headers ∧ k ≠ .cont) ∧ k ≠ .rst ∧ k ≠ .data)
     (r : R) (sid : Nat) (resp : Resp) : cnt k (slHandlerDone r sid resp).out = cnt k r.out := by
   simp only [slHandlerDone]
   repeat' split
